@@ -37,7 +37,7 @@ pub const EXEMPLARS: [(&str, &str); 4] = [
          type B { g: [B!] }
          union U = A | B
          enum E { X }
-         interface I { f: Int }
+         interface I { f: Int g(x: Int, in: In): Int }
          input In { a: Int }",
     ),
     (
